@@ -471,6 +471,34 @@ Theorem C19_fine_grained_results_sequential : forall fsched threads s0,
 Proof. exact fine_results_sequential. Qed.
 Print Assumptions C19_fine_grained_results_sequential.
 
+(* ... with the thread of every entry: at quiescence the log IS the list of (thread that took the turn,
+   result of [step] at that place of the linearization) of some coarse schedule *)
+Theorem C19_fine_grained_results_tagged : forall fsched threads s0,
+  let c := frun fsched (finit threads s0) in
+  let l := snd (frun_log fsched (finit threads s0, [])) in
+  fowner c = None ->
+  exists sched,
+    fstate c = run s0 (linearize sched threads) /\
+    map pending (fths c) = fst (crun sched (threads, s0)) /\
+    l = combine (sched_tids sched threads) (map snd (trace_gen step s0 (linearize sched threads))).
+Proof. exact fine_results_tagged. Qed.
+Print Assumptions C19_fine_grained_results_tagged.
+
+(* ... and per thread: thread j's entries of the tagged linearization, in order, followed by what is
+   still pending in thread j, are thread j's program - the k-th result thread j received is the result
+   [step] gives for ITS k-th operation at that operation's place in the sequential order *)
+Theorem C19_fine_grained_results_per_thread : forall fsched threads s0,
+  let c := frun fsched (finit threads s0) in
+  let l := snd (frun_log fsched (finit threads s0, [])) in
+  fowner c = None ->
+  exists lt : list (nat * top),
+    fstate c = run s0 (map snd lt) /\
+    l = combine (map fst lt) (map snd (trace_gen step s0 (map snd lt))) /\
+    forall j, (map snd (filter (fun p => Nat.eqb (fst p) j) lt) ++ nth j (map pending (fths c)) [])%list
+              = nth j threads [].
+Proof. exact fine_results_per_thread. Qed.
+Print Assumptions C19_fine_grained_results_per_thread.
+
 (* a program run alone has one outcome, and it is the atomic step's: strengthens
    C19_programs_are_steps from "there is a run ending in step's state and result" to "every run does" *)
 Theorem C19_program_runs_only_step : forall now o s tr s' r,
